@@ -22,7 +22,8 @@ theorem core_some_des (h : NNet) (c : Nat) (m : NNet) (sh : Shape) (hs : implSha
     (hfresh : addFreshB h c m = true) (ht : targetsOKB m = true)
     (hself : ∀ ll, GhostLine h c m sh ll → (h.net.line ll).driver ≠ c) (dn : Nat) (hd : sh.des = some dn) :
     ∃ h5 map dang, substituteCore h c m = some (h5, map, dang) ∧
-      ∀ j, j < h5.net.nodes.size → j ∉ map.toList.filterMap id → Dn h5.net j := by
+      (∀ j, j < h5.net.nodes.size → j ∉ map.toList.filterMap id → Dn h5.net j) ∧
+      (∀ j, j < (phase1 h c m sh.des).1.net.nodes.size → ¬ ownN h c j → LS (phase1 h c m sh.des).1.net h5.net j) := by
   have li : LI h := ⟨w.names, w.io⟩
   have p1 := phase1_some_obs h c m dn li hc
   obtain ⟨e1, e2, e3, _⟩ := phase1_rest h c m dn
@@ -63,7 +64,8 @@ theorem core_some_nodes (h : NNet) (c : Nat) (m : NNet) (sh : Shape) (hs : implS
     (hfresh : addFreshB h c m = true) (ht : targetsOKB m = true)
     (hself : ∀ ll, GhostLine h c m sh ll → (h.net.line ll).driver ≠ c) (hio : c ∉ h.net.io) (hd : sh.des = none) :
     ∃ h5 map dang, substituteCore h c m = some (h5, map, dang) ∧
-      ∀ j, j < h5.net.nodes.size → j ∉ map.toList.filterMap id → Dn h5.net j := by
+      (∀ j, j < h5.net.nodes.size → j ∉ map.toList.filterMap id → Dn h5.net j) ∧
+      (∀ j, j < (phase1 h c m sh.des).1.net.nodes.size → ¬ (h.net.nodes.size - 1 ≤ j) → LS (phase1 h c m sh.des).1.net h5.net j) := by
   have li : LI h := ⟨w.names, w.io⟩
   have hioc : h.net.io.contains c = false := by simpa using hio
   obtain ⟨sA1, sA2⟩ := delNode_sizes h c
@@ -106,10 +108,26 @@ theorem core_some (h : NNet) (c : Nat) (m : NNet) (sh : Shape) (hs : implShape m
     (hfresh : addFreshB h c m = true) (ht : targetsOKB m = true)
     (hself : ∀ ll, GhostLine h c m sh ll → (h.net.line ll).driver ≠ c) (hio : c ∉ h.net.io) :
     ∃ h5 map dang, substituteCore h c m = some (h5, map, dang) ∧
-      ∀ j, j < h5.net.nodes.size → j ∉ map.toList.filterMap id → Dn h5.net j := by
+      (∀ j, j < h5.net.nodes.size → j ∉ map.toList.filterMap id → Dn h5.net j) ∧
+      (∀ j, j < (phase1 h c m sh.des).1.net.nodes.size → (sh.des.isSome = true → j ≠ c) →
+        LS (phase1 h c m sh.des).1.net h5.net j) := by
   cases hd : sh.des with
-  | none => exact core_some_nodes h c m sh hs w fd hc hil hol hfresh ht hself hio hd
-  | some dn => exact core_some_des h c m sh hs w fd hc hil hol hfresh ht hself dn hd
+  | none =>
+    obtain ⟨h5, map, dang, hcore, hdn, hls⟩ := core_some_nodes h c m sh hs w fd hc hil hol hfresh ht hself hio hd
+    refine ⟨h5, map, dang, hcore, hdn, fun j hj _ => ?_⟩
+    rw [hd] at hls
+    refine hls j hj ?_
+    have : (phase1 h c m none).1.net.nodes.size = h.net.nodes.size - 1 := (delNode_sizes h c).1
+    omega
+  | some dn =>
+    obtain ⟨h5, map, dang, hcore, hdn, hls⟩ := core_some_des h c m sh hs w fd hc hil hol hfresh ht hself dn hd
+    refine ⟨h5, map, dang, hcore, hdn, fun j hj hne => ?_⟩
+    rw [hd] at hls
+    refine hls j hj ?_
+    have : (phase1 h c m (some dn)).1.net.nodes.size = h.net.nodes.size := (phase1_rest h c m dn).2.2.1
+    rintro (e | e)
+    · exact hne rfl e
+    · omega
 
 
 /-- the circuit `substituteCore` builds is well-formed up to trailing `None`s and `node_map` points into it (from the certificates
@@ -190,7 +208,7 @@ theorem substitute_some (h m : NNet) (c : Nat) (w : WFm h) (fd : FD h.net) (mw :
   obtain ⟨sh, hs, k2, k3, k4⟩ := implGenOKB_spec m hok
   have hself := noSelfIgnB_spec h c m sh hs hns
   obtain ⟨hil, hol⟩ := har sh hs
-  obtain ⟨h5, map, dang, hcore, hdn⟩ := core_some h c m sh hs w fd hc hil hol hfresh ht hself hio
+  obtain ⟨h5, map, dang, hcore, hdn, _⟩ := core_some h c m sh hs w fd hc hil hol hfresh ht hself hio
   obtain ⟨wfm5, hmapLt⟩ := core_wfm h m c w mw hc hio hcf sh hs k2 k3 k4 hself h5 map dang hcore
   obtain ⟨dd, wd, _⟩ := densNN_densM (map.toList.filterMap id) h5 wfm5
   have ho : ∀ x ∈ map.toList.filterMap id, x < (densNN h5 (map.toList.filterMap id)).net.nodes.size := by
